@@ -10,7 +10,12 @@ from dep import Engine, FnDep, ALIAS_CALLS
 from mir import fmt_term, fmt_op, fmt_place
 
 UMAX = 2 ** 64 - 1
-IMAX = 2 ** 63 - 1
+# Largest size in bytes of one allocated object.  The language guarantees isize::MAX; every platform the crate can run on has far less
+# virtual address space per process (47 / 48 bits, 56 / 57 with five-level paging).  Lengths of slices and vectors are bounded by
+# 2^56 / size_of(element): with the language bound alone, sums of three octet-string lengths (buffer capacities such as
+# `with_capacity(a.len() + b.len() + c.len())`) could formally overflow although no such inputs can exist.  Stated as an assumption
+# in DESIGN.md and in every evidence file.  Caller-chosen *counts* that are not lengths stay unbounded.
+IMAX = 2 ** 56 - 1
 
 DEREF_CALLS = ('std::ops::Deref::deref', 'std::ops::DerefMut::deref_mut', 'std::vec::Vec::<T, A>::as_slice',
                'std::vec::Vec::<T, A>::as_mut_slice', 'std::convert::AsRef::as_ref', 'std::borrow::Borrow::borrow',
@@ -886,7 +891,9 @@ class ZoneFn:
         if kind == 'call':
             cal = x.get('callee') or ''
             if cal in ('std::ops::Try::branch', 'std::option::Option::<T>::ok_or', 'std::option::Option::<T>::ok_or_else',
-                       'std::result::Result::<T, E>::map_err') and x['args'][0]['k'] in ('copy', 'move') and not x['args'][0]['pl'].get('p'):
+                       'std::result::Result::<T, E>::map_err', 'std::option::Option::<&T>::copied', 'std::option::Option::<&T>::cloned',
+                       'std::option::Option::<&mut T>::copied', 'std::option::Option::<&mut T>::cloned') \
+                    and x['args'][0]['k'] in ('copy', 'move') and not x['args'][0]['pl'].get('p'):
                 return self._origin_call(x['args'][0]['pl']['l'], depth + 1)
             return (bi, x)
         if kind == 'assign' and x['rv']['k'] == 'use' and x['rv']['op']['k'] in ('copy', 'move') and not x['rv']['op']['pl'].get('p'):
@@ -1185,6 +1192,10 @@ class ZoneFn:
             return None
         call = o[1]
         from flow import local_target
+        if (call.get('callee') or '') in ('std::option::Option::<T>::map_or', 'std::option::Option::<T>::map_or_else') and len(call['args']) == 3:
+            nf = self._map_or_none_facts(call)
+            if nf is not None:
+                return nf
         tgt = local_target(self.za.eng, call)
         if tgt is None and (call.get('callee') or '') in ('core::slice::<impl [T]>::get', 'core::slice::<impl [T]>::get_mut') and len(call['args']) == 2 \
                 and call['args'][0]['k'] in ('copy', 'move'):
@@ -1239,7 +1250,56 @@ class ZoneFn:
             a, b = self.za.subst(self, call, t1, tgt=tgt, args=cargs), self.za.subst(self, call, t2, tgt=tgt, args=cargs)
             if a is not None and b is not None:
                 out.append((a, b))
+        # `ensure(cond, || err)?`: the callee succeeds only if the boolean it was given is true - the comparison that produced it holds here
+        for k in summ.get('post_true', []):
+            aargs = cargs if cargs is not None else call['args']
+            if k - 1 < len(aargs) and aargs[k - 1]['k'] in ('copy', 'move') and not aargs[k - 1]['pl'].get('p'):
+                cv = self._trace_bool(aargs[k - 1]['pl'], 0)
+                if cv is None:
+                    continue
+                if cv[0] == 'FACTS':
+                    out.extend(cv[1])
+                else:
+                    op, a, b, neg = cv
+                    tf, ff = self._cmp_facts(op, a, b)
+                    out.extend(ff if neg else tf)
         return out
+
+    def _map_or_none_facts(self, call):
+        """`iter.find(p).map_or(Ok(..), |x| Err(..))?`: the result is Ok only if nothing was found"""
+        opt, dflt, clo = call['args']
+        if clo['k'] not in ('copy', 'move') or clo['pl'].get('p') or opt['k'] not in ('copy', 'move') or opt['pl'].get('p'):
+            return None
+        ci = self.fd._closure_info(clo['pl']['l'])
+        if ci is None or ci[0] not in self.za.prog.bodies:
+            return None
+        cb = self.za.prog.bodies[ci[0]]
+        rets = [s for bi, s in cb.stmts() if s['k'] == 'assign' and s['dst']['l'] == 0 and not s['dst'].get('p')]
+        if not rets or not all(s['rv']['k'] == 'agg' and s['rv'].get('variant') == 'Err' for s in rets):
+            return None
+        # the default must be a success value
+        if dflt['k'] in ('copy', 'move') and not dflt['pl'].get('p'):
+            dd = self.single_def(dflt['pl']['l'])
+            if not (dd and dd[0] == 'assign' and dd[2]['rv']['k'] == 'agg' and dd[2]['rv'].get('variant') == 'Ok'):
+                return None
+        elif dflt['k'] != 'const':
+            return None
+        o = self._origin_call(opt['pl']['l'])
+        if not o or (o[1].get('callee') or '') not in ('std::iter::Iterator::find', 'std::iter::Iterator::position') or len(o[1]['args']) != 2:
+            return None
+        x = o[1]
+        if x['args'][1]['k'] not in ('copy', 'move') or x['args'][1]['pl'].get('p'):
+            return None
+        es = self.elem_sym_of_iter(x['args'][0])
+        ci2 = self.fd._closure_info(x['args'][1]['pl']['l'])
+        if es is None or ci2 is None:
+            return None
+        pr = self.closure_predicate(ci2[0], ci2[1], es)
+        if pr is None:
+            return None
+        op, a, b, neg = pr
+        tf, ff = self._cmp_facts(op, a, b)
+        return tf if neg else ff
 
     def _none_facts_of_find(self, t):
         """switch on discriminant(iter.find(p)) / iter.position(p): on the None edge no element satisfies p"""
@@ -1294,6 +1354,30 @@ class ZoneFn:
                 ln = self.len_of_place(x['args'][0]['pl'])
                 if ln is not None:
                     return ('Eq', ln, (None, 0), False)
+            if cal in ('std::option::Option::<T>::is_none', 'std::option::Option::<T>::is_some') and x['args'] and x['args'][0]['k'] in ('copy', 'move'):
+                # `iter.find(p).is_none()`: no element satisfies p
+                r0 = x['args'][0]['pl']['l']
+                for _ in range(3):
+                    dr = self.single_def(r0)
+                    if dr and dr[0] == 'assign' and dr[2]['rv']['k'] in ('ref', 'use'):
+                        src = dr[2]['rv'].get('pl') or dr[2]['rv'].get('op', {}).get('pl')
+                        if src and not src.get('p'):
+                            r0 = src['l']
+                            continue
+                    break
+                o = self._origin_call(r0)
+                if o and (o[1].get('callee') or '') in ('std::iter::Iterator::find', 'std::iter::Iterator::position') and len(o[1]['args']) == 2 \
+                        and o[1]['args'][1]['k'] in ('copy', 'move') and not o[1]['args'][1]['pl'].get('p'):
+                    es = self.elem_sym_of_iter(o[1]['args'][0])
+                    ci = self.fd._closure_info(o[1]['args'][1]['pl']['l'])
+                    pr = self.closure_predicate(ci[0], ci[1], es) if (es is not None and ci is not None) else None
+                    if pr is not None:
+                        op, a, b, neg = pr
+                        tf, ff = self._cmp_facts(op, a, b)
+                        none_facts = tf if neg else ff
+                        if cal.endswith('is_none'):
+                            return ('FACTS', none_facts, [], False)
+                        return ('FACTS', [], none_facts, False)
             if cal in ('std::iter::Iterator::any', 'std::iter::Iterator::all') and len(x['args']) == 2 and x['args'][1]['k'] in ('copy', 'move') \
                     and not x['args'][1]['pl'].get('p'):
                 # quantified predicate over the elements of a container: all(p) true => p for every element; any(p) false => !p for every element
